@@ -1,6 +1,7 @@
 import Gedcom.Model.Ident
 import Gedcom.Model.CopyDoc
 import Gedcom.Model.EqualTies
+import Gedcom.Model.DateGuard
 import Driver.Util
 import Driver.Tree
 namespace Driver
@@ -40,6 +41,41 @@ def parseOptList (toks : List String) : Option (List (Option Node) × List Strin
   | n :: rest => do let n ← n.toNat?; parseOpts n rest
   | [] => none
 
+/-- `<k> (<forest>)^k`, the objects numbered consecutively in preorder across the documents -/
+def parseDocs : Nat → Nat → List String → Option (List (List INode) × Nat × List String)
+  | 0, next, toks => some ([], next, toks)
+  | k + 1, next, toks => do
+    let (f, rest) ← parseForest toks
+    let lab := labelList next f
+    let (ds, n, rest') ← parseDocs k lab.2 rest
+    pure (lab.1 :: ds, n, rest')
+
+def parseOps : List String → Option (List CopyOp)
+  | [] => some []
+  | a :: b :: c :: rest => do
+    let a ← a.toNat?; let b ← b.toNat?; let c ← c.toNat?
+    let ops ← parseOps rest
+    pure (⟨a, b, c⟩ :: ops)
+  | _ => none
+
+def showNats (l : List Nat) : String :=
+  if l.isEmpty then "-" else ",".intercalate (l.map toString)
+
+def showEvent (e : Option CopyEvent) : String :=
+  match e with
+  | none => "[noop]"
+  | some e =>
+    let c := e.result.copy
+    s!"[ok first={e.start} n={c.ids.length} fresh={b2s (c.ids.all fun i => decide (e.start ≤ i))} t={showNode c.erase} fam={showNats (roleFamilies e.ctx (e.start + c.ids.length) e.source)} doc={showNats ((docBearing c).map fun _ => e.op.dst)} added={e.result.famAdds.length}]"
+
+def distinctPtrs (recs : List INode) : List Str :=
+  (recs.map (·.ptr)).foldl (fun acc p => if p.isEmpty || acc.contains p then acc else acc ++ [p]) []
+
+def showDocSt (d : DocSt) : String :=
+  let ptrs := distinctPtrs d.nodes
+  let look := ptrs.map fun p => match d.nodeByPointer p with | some i => toString i | none => "nil"
+  s!"[ids={showNats (d.nodes.map (·.id))} text={toHex ((d.nodes.map fun r => render (some 0) r.erase).foldl (· ++ ·) [])} ptr={if look.isEmpty then "-" else ",".intercalate look} fams={showNats d.families}]"
+
 /-- requests about node equality and deep copies (C07) -/
 def handleEqual (cmd : String) (rest : List String) : Option String :=
   match cmd with
@@ -48,6 +84,19 @@ def handleEqual (cmd : String) (rest : List String) : Option String :=
     match parseForest rest with
     | some ([a, b], []) =>
       some s!"{b2s (equalsShallow a b)}{b2s (equalsShallow b a)} {b2s (deepEqual a b)}{b2s (deepEqual b a)}{tieMark [a] [b]}"
+    | _ => some "bad-op"
+  | "dsym" =>
+    -- dsym <hex a> <hex b> : DateNode.Equals both ways; is Date.Equals symmetric on the start pair
+    --   and on the end pair (model: not `asymPair`); are the two values in the plain class
+    match rest with
+    | [ha, hb] =>
+      match fromHex ha, fromHex hb with
+      | some a, some b =>
+        let ra := parseDateRange a
+        let rb := parseDateRange b
+        let tie := if dateValuesTie a b then " ~tie" else ""
+        some s!"{b2s (dateValueEquals a b)}{b2s (dateValueEquals b a)} sym={b2s (!ra.start.asymPair rb.start)}{b2s (!ra.end_.asymPair rb.end_)} plain={b2s (plainDateValue a)}{b2s (plainDateValue b)}{tie}"
+      | _, _ => some "bad-op"
     | _ => some "bad-op"
   | "deqn" =>
     -- deqn <forest l> <forest r> : DeepEqualNodes(l, r)
@@ -131,6 +180,24 @@ def handleEqual (cmd : String) (rest : List String) : Option String :=
               | none => "?"
             some s!"ok fresh={b2s fresh} prefix={b2s prefixOK} added={showForest (added.map (·.erase))} redirected={String.join look} copy={showNode r.copy.erase}"
       | _, _ => some "bad-op"
+    | _ => some "bad-op"
+  | "copydoc" =>
+    -- copydoc <ndocs> (<forest>)^ndocs (<src> <object> <dst>)* : a sequence of DeepCopy calls
+    --   between documents; answers what every call returned and the documents afterwards
+    match rest with
+    | k :: more =>
+      match k.toNat? with
+      | some k =>
+        match parseDocs k 0 more with
+        | some (ds, n, opsToks) =>
+          match parseOps opsToks with
+          | some ops =>
+            let w : World := ⟨ds.map DocSt.ofRecords, n⟩
+            let r := w.run ops
+            some (" ".intercalate (r.2.map showEvent ++ r.1.docs.map showDocSt))
+          | none => some "bad-op"
+        | none => some "bad-op"
+      | none => some "bad-op"
     | _ => some "bad-op"
   | "deqo" =>
     -- deqo <forest of 0|1> <forest of 0|1> : DeepEqual where either side may be nil
